@@ -243,7 +243,7 @@ void World::apply(const Event& e) {
     case Event::READ_EOF: net->complete_read(st, asio::error::eof, 0); break;
     case Event::SHUTDOWN_OK: net->complete_shutdown(st, {}); break;
     case Event::SHUTDOWN_HANG: st->shutdown_hung = true; break;
-    case Event::WRITE_HANG: st->write_hung = true; env_deadlines.emplace_back(now() + 45 * 1000000000LL, st->id); if (cid >= 0) broker->set_behaviour(cid, bkr::B_NOREPLY); break;   // nothing of it reaches the broker; the peer has gone quiet
+    case Event::WRITE_HANG: st->write_hung = true; hung_streams.insert(st->id); env_deadlines.emplace_back(now() + 45 * 1000000000LL, st->id); if (cid >= 0) broker->set_behaviour(cid, bkr::B_NOREPLY); break;   // nothing of it reaches the broker; the peer has gone quiet
     case Event::RELEASE: broker->release_held(e.a); break;
     case Event::APP: { for (;;) { const Action& a = sc.script[script_pos++]; do_action(a, false); if (!a.chain || script_pos >= sc.script.size()) break; } break; }
     case Event::TIME: { auto t = next_timer(); if (t && *t > now()) vclock::set_ns(*t);
